@@ -240,7 +240,7 @@ class C01(Check):
         broken += C.zoo_agreement(ctx, wntr, "C01DD", self.info["DD"]["names"], "DD", "default", npts, lambda mbc, lc: mbc)
         broken += C.zoo_agreement(ctx, wntr, "C01PDD", self.info["PDD"]["names"], "PDD", "default", npts, lambda mbc, lc: mbc)
         corpus = [c["spec"] for _, c in vlib.corpus_items(self.pid) if "spec" in c]
-        specs = corpus + C.reversal_specs(ctx, 10 if ctx.quick else 80) + C.gen_specs(ctx, 30 if ctx.quick else 400, 9 if ctx.quick else 54)
+        specs = corpus + C.reversal_specs(ctx, 10 if ctx.quick else 80) + C.gen_specs(ctx, 30 if ctx.quick else 400, 11 if ctx.quick else 66)
         broken += self._static_rows(ctx, wntr, specs[: (24 if ctx.quick else 200)])
         f, b = self._run_specs(ctx, wntr, specs)
         failures += f
@@ -254,7 +254,7 @@ class C01(Check):
         wntr = vlib.import_wntr()
         self.max_res = 0.0
         corpus = [c["spec"] for _, c in vlib.corpus_items(self.pid) if "spec" in c]
-        f, b = self._run_specs(ctx, wntr, corpus + C.reversal_specs(ctx, 30) + C.gen_specs(ctx, 80, 18))
+        f, b = self._run_specs(ctx, wntr, corpus + C.reversal_specs(ctx, 30) + C.gen_specs(ctx, 80, 22))
         return f
 
     def replay(self, ctx, path):
